@@ -568,6 +568,9 @@ def run(tier):
     runs = [("melt", [3.0, 3.0, 3.0], 1.0, 3000.0, 3, sd * 100 + 1, False), ("melt", [2.6, 3.2, 3.4], 0.8, 5000.0, 5, sd * 100 + 2, False),
             ("mix", [3.0, 2.5, 2.8], 1.2, 2000.0, 2, sd * 100 + 3, True), ("mix", [2.6, 2.6, 2.6], 1.0, 5e4, 5, sd * 100 + 4, False)]
     runs.append(("slab", [10.0, 10.0, 12.0], 1.0, 5e4, 5, sd * 100 + 5, True))
+    # force criterion switched off by an astronomically large limit: only the 0.1 nm rule is left (dense box, short steps)
+    runs.append(("melt", [2.5, 2.5, 2.5], 0.5, 1e300, 3, sd * 100 + 6, False))
+    runs.append(("mix", [2.2, 2.2, 2.2], 0.5, 1e300, 5, sd * 100 + 7, False))
     if tier == "thorough":
         runs += [(k, b, sf, mf, nr, sd * 100 + 10 + i, g) for i, (k, b, sf, mf, nr, g) in enumerate(
             [(k, b, sf, mf, nr, g) for k in ("melt", "mix") for b in ([3.0, 3.0, 3.0], [2.7, 3.1, 3.3]) for sf in (0.8, 1.0, 1.2)
